@@ -188,13 +188,86 @@ def check_traced(out, ent, ex, dmax, dmin):
     return None
 
 
+def _chains_ok(df, what):
+    """the requires of add_chain_suffix / add_chain_prefix on the traced table: every chain carries exactly the orders 1..k, positive
+    object numbers, unique subtomogram numbers"""
+    if len(df) == 0:
+        return None
+    if df["subtomo_id"].duplicated().any():
+        return f"{what}: subtomogram numbers not unique"
+    if (df["object_id"].values < 1).any():
+        return f"{what}: object number < 1"
+    for cl, g in df.groupby("object_id"):
+        if sorted(g["geom2"].values) != list(range(1, len(g) + 1)):
+            return f"{what}: chain {cl} carries orders {sorted(g['geom2'].values)[:8]}"
+    return None
+
+
+class _CallSiteRequires:
+    """run-time check of the callee contracts' REQUIRES at the two call sites in trace_chains (the callees are proved under these
+    requires in contracts/c19.py; the caller's main loop is not under a deductive contract, so its side is checked on every real call)"""
+
+    def __init__(self, mod):
+        self.mod, self.fail = mod, None
+        self.real = (mod.add_chain_suffix, mod.add_chain_prefix)
+
+    def __enter__(self):
+        real_s, real_p = self.real
+
+        def suffix(chain_df, motl, traced_df, subtomo_id, current_dist, *a, **k):
+            self._pre("add_chain_suffix", chain_df, traced_df, motl, subtomo_id, None)
+            return real_s(chain_df, motl, traced_df, subtomo_id, current_dist, *a, **k)
+
+        def prefix(chain_df, motl, traced_df, subtomo_id, current_dist, *a, class_max=None, **k):
+            self._pre("add_chain_prefix", chain_df, traced_df, motl, subtomo_id, class_max)
+            return real_p(chain_df, motl, traced_df, subtomo_id, current_dist, *a, class_max=class_max, **k)
+        self.mod.add_chain_suffix, self.mod.add_chain_prefix = suffix, prefix
+        return self
+
+    def __exit__(self, *a):
+        self.mod.add_chain_suffix, self.mod.add_chain_prefix = self.real
+
+    def _pre(self, fn, chain_df, traced_df, motl, idx, class_max):
+        if self.fail is not None:
+            return
+        r = _chains_ok(traced_df, f"requires of {fn} at its call site in trace_chains: traced table")
+        if r is None:
+            pid = motl.df.loc[motl.df.index[idx], "subtomo_id"]
+            if (traced_df["subtomo_id"] == pid).sum() != 1:
+                r = f"requires of {fn}: the particle is not a row of the traced table"
+        ccls = set(chain_df["object_id"].values)
+        orders = list(chain_df["geom2"].values)
+        used = set(traced_df["object_id"].values)
+        if r is None and len(ccls) != 1:
+            r = f"requires of {fn}: the new chain carries several object numbers"
+        if r is None and class_max is None:
+            if ccls & used:
+                r = f"requires of {fn}: the new chain's object number {sorted(ccls)} is already used in the traced table"
+            elif orders != list(range(1, len(orders) + 1)):
+                r = f"requires of {fn}: the new chain's orders are {orders[:8]}"
+        if r is None and class_max is not None:
+            cP = next(iter(ccls))
+            base = int((traced_df["object_id"] == cP).sum())
+            pid_cls = traced_df.loc[traced_df["subtomo_id"] == pid, "object_id"].values[0]
+            if orders != list(range(base + 1, base + len(orders) + 1)) or class_max[0] != base + len(orders):
+                r = f"requires of {fn} (two-sided form): the new chain's orders {orders[:8]} do not continue the chain it was attached to (length {base}), class_max={class_max}"
+            elif class_max[1] in used or class_max[1] == cP or class_max[1] < 1:
+                r = f"requires of {fn} (two-sided form): object number {class_max[1]} for a cut-off head is already used in the traced table"
+            elif pid_cls == cP:
+                r = f"requires of {fn} (two-sided form): both ends connect to the same chain"
+        self.fail = r
+
+
 def run_case(c):
     from cryocat import ribana
     ent, ex = _lists(c)
     me, mx = motl_from_rows(ent), motl_from_rows(ex)
-    out, e = call(ribana.trace_chains, me, mx, max_distance=c["dmax"], min_distance=c["dmin"])
+    with _CallSiteRequires(ribana) as mon:
+        out, e = call(ribana.trace_chains, me, mx, max_distance=c["dmax"], min_distance=c["dmin"])
     if e is not None:
         return {"raised": f"{type(e).__name__}: {e}"}
+    if mon.fail is not None:
+        return {"what": mon.fail}
     return check_traced(out.df, ent, ex, c["dmax"], c["dmin"])
 
 
